@@ -24,6 +24,7 @@ The expected verdict is computed by the extracted Coq model:
 from props._world import WorldGen
 
 MAXI = 2 ** 31 - 1
+XLOG = []    # (id, op, args, answer) of every line run_pairs fed to the extracted model (sampled by the in-Coq cross-check)
 BASE_TIME = 1700000000    # world.hpp: the registry's mocked clock starts here and ticks once per mining operation
 TABLE = [100, 100, 95, 89, 80, 69, 56, 40, 21]    # AltChainParams default (checked against Gen/ScoreParams.v by C03.py)
 
@@ -413,6 +414,11 @@ def run_pairs(vlib, ctx, model, harness, pairs, tag, chunk=150, workers=4):
             if c is not None:
                 f.write(outer_line(P, "p%d" % i, c[1]) + "\n")
     _, ores, _, _ = vlib.run_lines([model], opath)
+    for path, rs in ((mpath, mres), (opath, ores)):
+        for line in open(path):
+            t = line.split()
+            if len(t) >= 2 and t[0] in rs:
+                XLOG.append((t[0], t[1], t[2:], rs[t[0]]))
     orc_by = {}
     for cid, text in orc:
         orc_by.setdefault(int(cid[1:].split(".")[0]), []).append(text)
